@@ -16,7 +16,7 @@ func runC07(c *Ctx) int {
 		return c.replayAPI(mon, 1_000_000)
 	}
 	n := c.Pick(640, 40000)
-	progs := apiPrograms(c.Seed+100, n, []string{"buckets", "mixed", "manybuckets", "structural", "big", "buckets", "manybuckets"}, func(i int, cfg *gen.Config) {
+	progs := apiPrograms(c.Seed+100, n, []string{"buckets", "mixed", "manybuckets", "structural", "big", "buckets", "manybuckets", "bigkeys"}, func(i int, cfg *gen.Config) {
 		cfg.Rollback = 0.3
 		cfg.Reopen = 0.2
 		cfg.ROProbe = 0
